@@ -140,3 +140,116 @@ Lemma read_raw_conforming mts tag cs extra :
     mk_rd (req_seq tag mts (length cs)) (Nat.iter (length cs) next_tag tag)
           (Ok (concat (map chunk_data cs))).
 Proof. intros NE F. unfold read_raw. cbn [Z.ltb Z.compare andb]. apply (rd_loop_conforming mts extra cs tag [] [] NE F). Qed.
+
+(* ---------- read_raw with a size limit (num > 0) ------------------------------------------- *)
+Lemma rd_loop_step_pos t i c e p rest rl tag reqs acc (num : N) : len c < 4294967296 -> 0 < num ->
+  rd_loop (in_response t i c e p :: rest) (Z.of_N num) rl tag reqs acc =
+    if num <=? len c then mk_rd (reqs ++ [in_request (next_tag tag) rl]) (next_tag tag) (Ok (acc ++ c))
+    else if e then mk_rd (reqs ++ [in_request (next_tag tag) rl]) (next_tag tag) (Ok (acc ++ c))
+    else rd_loop rest (Z.of_N (num - len c)) (N.min rl (num - len c)) (next_tag tag)
+                 (reqs ++ [in_request (next_tag tag) rl]) (acc ++ c).
+Proof.
+  intros H Hn. unfold in_response, le32. cbn [app rd_loop]. rewrite (dec32_le32 _ H).
+  unfold resp_data. cbn [skipn]. rewrite len_app. replace (len c + len p <? len c) with false by lia.
+  rewrite to_nat_len, firstn_app, firstn_all, Nat.sub_diag. cbn [firstn]. rewrite app_nil_r.
+  replace (len c <=? len c) with true by lia. replace (0 <? Z.of_N num)%Z with true by lia.
+  destruct (num <=? len c) eqn:E.
+  - replace (Z.of_N num - Z.of_N (len c) <=? 0)%Z with true by lia. reflexivity.
+  - replace (Z.of_N num - Z.of_N (len c) <=? 0)%Z with false by lia.
+    replace (Z.of_N num - Z.of_N (len c))%Z with (Z.of_N (num - len c)) by lia.
+    replace (if (Z.of_N (num - len c) <? Z.of_N rl)%Z then Z.to_N (Z.of_N (num - len c)) else rl)
+      with (N.min rl (num - len c)) by (destruct (Z.of_N (num - len c) <? Z.of_N rl)%Z eqn:F; lia).
+    destruct e; reflexivity.
+Qed.
+
+Lemma rd_loop_limited mts extra : forall cs tag reqs acc num,
+  0 < num -> cs <> [] -> Forall (fun c => len (chunk_data c) < 4294967296) cs ->
+  rd_loop (dev_script cs ++ extra) (Z.of_N num) (N.min mts num) tag reqs acc =
+    mk_rd (reqs ++ reqs_of tag (served num mts cs))
+          (Nat.iter (length (served num mts cs)) next_tag tag)
+          (Ok (acc ++ concat (map (fun wc => chunk_data (snd wc)) (served num mts cs)))).
+Proof.
+  induction cs as [|[[[c p] t] i] cs IH]; intros tag reqs acc num Hn NE F; [contradiction|].
+  inversion F as [|? ? Hc F']; subst. cbn [chunk_data fst] in Hc.
+  cbn [dev_script app served chunk_data fst]. rewrite rd_loop_step_pos by assumption.
+  destruct (num <=? len c) eqn:E.
+  - cbn [reqs_of length map concat Nat.iter nat_rect snd chunk_data fst]. rewrite app_nil_r. reflexivity.
+  - destruct cs as [|c2 cs].
+    + cbn [served reqs_of length map concat Nat.iter nat_rect snd chunk_data fst]. rewrite app_nil_r. reflexivity.
+    + replace (N.min (N.min mts num) (num - len c)) with (N.min mts (num - len c)) by lia.
+      rewrite IH by (try discriminate; try exact F'; lia).
+      set (rest := c2 :: cs). cbn [reqs_of length map concat snd chunk_data fst].
+      rewrite <- !app_assoc. cbn [app]. rewrite iter_shift. reflexivity.
+Qed.
+
+(* a device that never sends more than the requested TransferSize: the exchanged chunks are exactly
+   the first num bytes of the message (all of it when it is shorter) *)
+Lemma served_prefix mts : forall cs num,
+  Forall (fun wc => len (chunk_data (snd wc)) <= fst wc) (served num mts cs) ->
+  concat (map (fun wc => chunk_data (snd wc)) (served num mts cs)) =
+    firstn (N.to_nat num) (concat (map chunk_data cs)).
+Proof.
+  induction cs as [|c cs IH]; intros num F; cbn [served map concat]; [rewrite firstn_nil; reflexivity|].
+  cbn [served] in F. inversion F as [|? ? Hc F']; subst. cbn [fst snd] in Hc.
+  destruct (num <=? len (chunk_data c)) eqn:E.
+  - cbn [map concat snd]. rewrite app_nil_r.
+    assert (L : N.to_nat num = length (chunk_data c)) by (unfold len in *; lia).
+    rewrite L, firstn_app, firstn_all, Nat.sub_diag. cbn [firstn]. rewrite app_nil_r. reflexivity.
+  - cbn [map concat snd]. rewrite (IH _ F').
+    replace (N.to_nat num) with (length (chunk_data c) + N.to_nat (num - len (chunk_data c)))%nat
+      by (unfold len in *; lia).
+    rewrite firstn_app_2. reflexivity.
+Qed.
+
+Lemma read_raw_limited mts tag cs extra num :
+  0 < num -> cs <> [] -> Forall (fun c => len (chunk_data c) < 4294967296) cs ->
+  read_raw (Z.of_N num) mts tag (dev_script cs ++ extra) =
+    mk_rd (reqs_of tag (served num mts cs))
+          (Nat.iter (length (served num mts cs)) next_tag tag)
+          (Ok (concat (map (fun wc => chunk_data (snd wc)) (served num mts cs)))).
+Proof.
+  intros Hn NE F. unfold read_raw.
+  replace (if ((0 <? Z.of_N num) && (Z.of_N num <? Z.of_N mts))%Z then Z.to_N (Z.of_N num) else mts)
+    with (N.min mts num) by (destruct ((0 <? Z.of_N num) && (Z.of_N num <? Z.of_N mts))%Z eqn:G; lia).
+  apply (rd_loop_limited mts extra cs tag [] [] num Hn NE F).
+Qed.
+
+Lemma read_raw_limited_conforming mts tag cs extra num :
+  0 < num -> cs <> [] -> Forall (fun c => len (chunk_data c) < 4294967296) cs ->
+  Forall (fun wc => len (chunk_data (snd wc)) <= fst wc) (served num mts cs) ->
+  rd_res (read_raw (Z.of_N num) mts tag (dev_script cs ++ extra)) =
+    Ok (firstn (N.to_nat num) (concat (map chunk_data cs))) /\
+  rd_reqs (read_raw (Z.of_N num) mts tag (dev_script cs ++ extra)) = reqs_of tag (served num mts cs) /\
+  Forall (fun wc => fst wc = N.min mts (fst wc) /\ fst wc <= num) (served num mts cs).
+Proof.
+  intros Hn NE F C. rewrite read_raw_limited by assumption. cbn [rd_res rd_reqs].
+  rewrite served_prefix by exact C. split; [reflexivity|]. split; [reflexivity|].
+  clear C F NE. revert num Hn. induction cs as [|c cs IH]; intros num Hn; cbn [served]; [constructor|].
+  constructor; [cbn [fst]; lia|]. destruct (num <=? len (chunk_data c)) eqn:E; [constructor|].
+  eapply Forall_impl; [|apply IH; lia]. intros [w x] [A B]. cbn [fst] in *. split; [exact A|lia].
+Qed.
+
+(* ---------- vendor quirk: Advantest/ADCMT limits transfers to 63 bytes -------------------------- *)
+Lemma wr_loop_sizes (mts : nat) : forall fuel data tag e ts t',
+  wr_loop fuel data mts tag e = Some (ts, t') -> Forall (fun tr => (length tr <= 12 + mts + 3)%nat) ts.
+Proof.
+  induction fuel as [|f IH]; intros data tag e ts t' H.
+  - destruct data; cbn [wr_loop] in H; [injection H as <- _; constructor|discriminate].
+  - destruct data as [|x data']; cbn [wr_loop] in H; [injection H as <- _; constructor|].
+    destruct (wr_loop f _ mts _ _) as [[ts0 t0]|] eqn:W; [|discriminate]. injection H as <- <-.
+    constructor; [|eapply IH; exact W].
+    rewrite !app_length. unfold padding. rewrite repeat_length. unfold out_header, bulk_out_header, le32. cbn [length app].
+    set (b := firstn mts (x :: data')). assert (length b <= mts)%nat by apply firstn_le_length.
+    assert ((4 - len b mod 4) mod 4 < 4) by (apply N.mod_lt; discriminate). lia.
+Qed.
+
+Lemma write_raw_advantest id_product data tag :
+  data <> [] -> tag <= 255 ->
+  exists ts t', write_raw_quirk 4916 id_product data tag = Some (ts, t') /\
+                dev_recv tag ts = Some (data, t') /\ Forall (fun tr => (length tr <= 12 + 63 + 3)%nat) ts.
+Proof.
+  intros NE Ht. unfold write_raw_quirk, vendor_quirks. change (4916 =? 4916) with true. cbv iota beta.
+  change (N.to_nat 63) with 63%nat.
+  destruct (write_raw_ok data 63 tag) as (ts & t' & W & D & _ & _); try assumption; try lia; [reflexivity|].
+  exists ts, t'. split; [exact W|]. split; [exact D|]. exact (wr_loop_sizes 63 _ _ _ _ _ _ W).
+Qed.
